@@ -16,7 +16,8 @@ Fixpoint ahead (id : nat) (inp : list req) : list rec :=
 Definition is_sync (id : nat) (q : req) : bool := match q with Sync j => Nat.eqb j id | _ => false end.
 Definition sync_in (id : nat) (inp : list req) : bool := existsb (is_sync id) inp.
 
-Definition base (s : st) : list rec := exported (hist s) ++ dropped s.
+(** handed to the exporter, overwritten (counted), or cut off by a failed export *)
+Definition base (s : st) : list rec := exported (hist s) ++ dropped s ++ lostE s.
 Definition Z1 s := base s ++ xpend (ex s) ++ input_recs (input s) ++ held s ++ ring s.
 Definition Z2 s := base s ++ xpend (ex s) ++ input_recs (input s) ++ held s.
 Definition Z3 s := base s ++ xpend (ex s) ++ input_recs (input s).
@@ -35,7 +36,6 @@ Definition place (s : st) (p : pc) : option (list rec) :=
 
 (** the situations in which the clause is required at all *)
 Definition guard (s : st) (t : nat) : Prop :=
-  has_fail (hist s) = false /\
   (Fst (pcs s t) = true -> stopped s = false) /\
   (Sst (pcs s t) = true -> shut_calls (hist s) <= 1).
 
@@ -80,11 +80,10 @@ Ltac in_norm :=
   end.
 
 Lemma Z3_mono c s a s' r :
-  step c s a = Some s' -> has_fail (hist s') = false -> In r (Z3 s) -> In r (Z3 s').
+  step c s a = Some s' -> In r (Z3 s) -> In r (Z3 s').
 Proof.
-  intros H Hf Hi. destruct a; open_step H; in_norm; try tauto.
+  intros H Hi. destruct a; open_step H; in_norm; try tauto.
   all: try (pose proof (enqueue_keeps c r0 s r) as [Hk1 Hk2]; tauto).
-  rewrite has_fail_snoc in Hf. cbn in Hf. rewrite orb_true_r in Hf. discriminate.
 Qed.
 
 Lemma base_mono c s a s' r : step c s a = Some s' -> In r (base s) -> In r (base s').
@@ -95,25 +94,23 @@ Qed.
 
 (** Z1 also counts the ring: nothing leaves it while the buffer exporter is not stopped *)
 Lemma Z1_mono c s a s' r :
-  step c s a = Some s' -> has_fail (hist s') = false -> bstopped s = false -> held s = [] ->
+  step c s a = Some s' -> bstopped s = false -> held s = [] ->
   In r (Z1 s) -> In r (Z1 s').
 Proof.
-  intros H Hf Hb Hh Hi. destruct a; open_step H; in_norm; rewrite ?Hh in *; cbn [In] in *; try tauto; try congruence.
+  intros H Hb Hh Hi. destruct a; open_step H; in_norm; rewrite ?Hh in *; cbn [In] in *; try tauto; try congruence.
   all: try (pose proof (enqueue_keeps c r0 s r) as [Hk1 Hk2]; tauto).
-  rewrite has_fail_snoc in Hf. cbn in Hf. rewrite orb_true_r in Hf. discriminate.
 Qed.
 
 (** Z2 (the final batch is held by Shutdown): steps of goroutines outside Shutdown *)
 Lemma Z2_mono c s a s' r :
-  step c s a = Some s' -> has_fail (hist s') = false ->
+  step c s a = Some s' ->
   (forall t, a = AStep t \/ a = ACtx t -> Sst (pcs s t) = false) ->
   In r (Z2 s) -> In r (Z2 s').
 Proof.
-  intros H Hf Hm Hi.
+  intros H Hm Hi.
   destruct a; try (specialize (Hm t (or_introl eq_refl)) || specialize (Hm t (or_intror eq_refl)));
     open_step H; try (rewrite Heqp in Hm; discriminate); in_norm; try tauto.
   all: try (pose proof (enqueue_keeps c r0 s r) as [Hk1 Hk2]; tauto).
-  rewrite has_fail_snoc in Hf. cbn in Hf. rewrite orb_true_r in Hf. discriminate.
 Qed.
 
 (** Z4: what is ahead of the flush marker *)
@@ -144,9 +141,9 @@ Lemma ahead_nil id : ahead id [] = [].
 Proof. reflexivity. Qed.
 
 Lemma Z4_mono c s a s' r id :
-  step c s a = Some s' -> has_fail (hist s') = false -> In r (Z4 id s) -> In r (Z4 id s').
+  step c s a = Some s' -> In r (Z4 id s) -> In r (Z4 id s').
 Proof.
-  intros H Hf Hi. unfold Z4 in *.
+  intros H Hi. unfold Z4 in *.
   destruct a; open_step H; sst';
     try match goal with E : input _ = _ |- _ => rewrite E in * end.
   all: rewrite ?sync_in_app, ?sync_in_cons, ?sync_in_nil, ?ahead_cons_data, ?ahead_cons_sync, ?ahead_nil in *;
@@ -161,7 +158,6 @@ Proof.
        rewrite ?ahead_cons_data, ?ahead_cons_sync, ?ahead_nil in *; try discriminate.
   all: in_norm; try tauto.
   all: try (pose proof (enqueue_keeps c r0 s r) as [Hk1 Hk2]; tauto).
-  rewrite has_fail_snoc in Hf. cbn in Hf. rewrite orb_true_r in Hf. discriminate.
 Qed.
 
 (** ** frame facts *)
@@ -201,8 +197,7 @@ Qed.
 Lemma guard_back c s a s' u :
   step c s a = Some s' -> pcs s' u = pcs s u -> guard s' u -> guard s u.
 Proof.
-  intros H Hp [G1 [G2 G3]]. rewrite Hp in *. repeat split.
-  - eapply has_fail_step; eauto.
+  intros H Hp [G2 G3]. rewrite Hp in *. repeat split.
   - intro Hf. eapply stopped_step; eauto.
   - intro Hs. pose proof (shut_calls_step _ _ _ _ H). specialize (G3 Hs). lia.
 Qed.
@@ -215,7 +210,7 @@ Lemma nonmover c s a s' u :
 Proof.
   intros HA HV H Hp HP Hm W' Hpl G r Hr.
   pose proof (guard_back _ _ _ _ _ H Hp G) as G0.
-  destruct G as [Gf [Gs Gc]]. rewrite Hp in *. rewrite HP in Hr.
+  destruct G as [Gs Gc]. rewrite Hp in *. rewrite HP in Hr.
   assert (Hmove : forall t, a = AStep t \/ a = ACtx t -> Sst (pcs s u) = true -> Sst (pcs s t) = false).
   { intros t Ht Hu. destruct (Sst (pcs s t)) eqn:E; [|reflexivity].
     exfalso. apply (Hm t Ht). now apply (a_uniq s HA). }
@@ -227,7 +222,7 @@ Proof.
   all: try solve [eapply Z4_mono; eauto].
   all: try solve [eapply base_mono; eauto].
   all: try solve [eapply Z2_mono; eauto; intros t Ht; apply Hmove; auto].
-  - (* F1 *) destruct G0 as [_ [G2 _]]. rewrite Epc in G2. specialize (G2 eq_refl).
+  - (* F1 *) destruct G0 as [G2 _]. rewrite Epc in G2. specialize (G2 eq_refl).
     destruct (held_nil_running s HA G2). eapply Z1_mono; eauto.
   - (* S1 *) eapply Z1_mono; eauto.
     + apply (a_early s HA u). now rewrite Epc.
@@ -260,19 +255,18 @@ Proof.
 Qed.
 
 Lemma in_total_zone s r :
-  InvB s -> In r (enq s) -> lostE s = [] -> lostD s = [] -> In r (Z1 s).
+  InvB s -> In r (enq s) -> lostD s = [] -> In r (Z1 s).
 Proof.
-  intros HB Hi HE HD. apply cnt_In in Hi. rewrite (b_cnt s HB r) in Hi. unfold total in Hi.
-  rewrite HE, HD in Hi. cbn in Hi. unfold Z1, base. apply cnt_In. rewrite !cnt_app. lia.
+  intros HB Hi HD. apply cnt_In in Hi. rewrite (b_cnt s HB r) in Hi. unfold total in Hi.
+  rewrite HD in Hi. cbn in Hi. unfold Z1, base. apply cnt_In. rewrite !cnt_app. lia.
 Qed.
 
 Lemma call_start_zone s r :
-  InvB s -> InvE s -> InvV s -> stopped s = false -> has_fail (hist s) = false ->
+  InvB s -> InvE s -> InvV s -> stopped s = false ->
   In r (emit_rets (hist s)) -> In r (Z1 s).
 Proof.
-  intros HB HE HV Hs Hf Hr. apply in_total_zone; auto.
+  intros HB HE HV Hs Hr. apply in_total_zone; auto.
   - now apply (e_rets s HE).
-  - now apply (v_lostE s HV).
   - now apply (v_lostD s HV).
 Qed.
 
@@ -294,7 +288,6 @@ Lemma mover_ok c s a s' t :
   forall W', place s' (pcs s' t) = Some W' -> guard s' t -> forall r, In r (P s' t) -> In r W'.
 Proof.
   intros HA HB HE HV H Ha W' Hpl G r Hr.
-  pose proof (has_fail_step _ _ _ _ H (proj1 G)) as Hf0.
   pose proof (v_place s HV t) as Hv.
   destruct a; cbn in Ha; inversion Ha; subst; clear Ha; open_step H; sst';
     rewrite ?upd_same in *; try rewrite Heqp in Hpl; cbn [place] in *; try discriminate;
@@ -305,10 +298,10 @@ Proof.
     specialize (Hv _ eq_refl G r Hr); in_norm; tauto].
   all: try solve [
     unfold P in Hr; sst'; rewrite before_call_snoc in Hr; cbn [is_call_of] in Hr; rewrite Nat.eqb_refl in Hr;
-    pose proof (call_start_zone s r HB HE HV Heqb Hf0 Hr) as Hz; in_norm; tauto].
+    pose proof (call_start_zone s r HB HE HV Heqb Hr) as Hz; in_norm; tauto].
   all: try solve [
     unfold guard, P in *; sst'; rewrite ?upd_same in *; try rewrite Heqp in *; cbn [Fst Sst place] in *;
-    specialize (Hv _ eq_refl G r Hr); destruct G as [G1 [G2 G3]]; specialize (G2 eq_refl);
+    specialize (Hv _ eq_refl G r Hr); destruct G as [G2 G3]; specialize (G2 eq_refl);
     destruct (held_nil_running s HA G2) as [Hh Hb];
     rewrite ?firstn_all, ?skipn_all in *; in_norm; rewrite ?Hh in *; cbn [In] in *; try congruence; tauto].
   all: try solve [
